@@ -309,6 +309,7 @@ fn main() {
         }
     }
     let thorough = run.tier == Tier::Thorough;
+    vcommon::en::WRAP_LIES.store(thorough, std::sync::atomic::Ordering::Relaxed);
     // registry completeness: every `pub fn parse_*` of the sources has an entry
     let scanned = scan_pub_parse_fns();
     // parse_record / parse_record_nocopy are TlsRecordsParser methods: covered by the history exploration below
